@@ -12,6 +12,10 @@ from pool import run_chunks
 INV = ["AsimovFromBkgFit", "StatisticsOnRightDataset", "ToyProtocol", "RefusedWithoutFits", "LayoutFacts", "Emit"]
 
 
+SUITE = {"quick": (["tests/test_infer.py"], ["-k", "hypotest and not toybased and not pytorch and not tensorflow and not jax"]),
+         "thorough": (["tests/test_infer.py", "tests/test_validation.py", "tests/test_calculator.py", "tests/test_regression.py"], ["-k", "not toybased"])}
+
+
 def run(prop, tier, only_toys=False, pid="C08"):
     v = Verdict(pid, tier, "model_checking")
     sd = seed()
@@ -61,10 +65,27 @@ def run(prop, tier, only_toys=False, pid="C08"):
                     "at the conditional best-fit of the respective hypothesis) / fit protocol / result layout",
                     {"label": t["label"], "index": idx, "fits_done": nf, "record": {k: ev[k] for k in ev if k not in ("init", "bounds", "x0", "vbounds")}},
                     ["trace", ev["ev"], t["label"].split("/")[1]])
+    # Binding B, source (ii): every asymptotic hypotest call the repository's own tests make (observer in the pytest plugin)
+    import suite_traces
+    files, extra = SUITE[tier]
+    recs, summary = suite_traces.run_tests(files, "c08suite", extra=extra)
+    stests = suite_traces.split(recs)
+    ht = suite_traces.hypotest_traces(stests)
+    for i, t_ in enumerate(ht):
+        t_["id"] = i + 1
+    if not ht:
+        raise Machinery(f"no hypotest records from the repository tests {files} ({summary})")
+    sacc, srej = tracecheck.check("TraceHypotest", ht, tag="c08suite", constants={"MaxUlps": 64}, spec="TraceSpecH")
+    for tid, idx, reason in srej:
+        t_ = ht[tid - 1]
+        ev = t_["events"][idx] if idx < len(t_["events"]) else {"ev": "end"}
+        v.violation(f"repository test {t_['label']}: recorded hypotest deviates from the protocol at record {idx} ({ev['ev']})",
+                    {"label": t_["label"], "index": idx}, ["trace", "suite", ev["ev"]])
     v.sample(json.loads(hlines[0])); v.sample(json.loads(clines[0]))
     v.coverage.update(
         states=hy.distinct + closed.distinct, transitions=hy.generated + closed.generated,
-        traces_validated_against_impl=len(accepted), hook_traces_rejected=len(rejected), hypotests_run=hts, refusals_checked=refus,
+        traces_validated_against_impl=len(accepted) + len(sacc), hook_traces_rejected=len(rejected) + len(srej), driver_hypotest_traces=len(accepted),
+        repository_tests_traced=len(stests), repository_hypotest_traces_validated=len(sacc), hypotests_run=hts, refusals_checked=refus,
         toy_runs_without_convergence=toyfail, evaluations=total, distinct_nontrivial=nontriv,
         rule=("Hypotest.tla: all 16 flag sets x {q, qtilde, q0} x {asymptotics, toybased with 1..MaxToys toys} x prerequisite faults; invariants "
               "AsimovFromBkgFit, StatisticsOnRightDataset, ToyProtocol, RefusedWithoutFits, LayoutFacts. Each case is run through the real "
